@@ -249,6 +249,25 @@ def sany(module):
     return p.returncode == 0 and 'Semantic errors' not in out and 'Parse Error' not in out, out
 
 
+def spec_closure(module):
+    """paths of the module and of every module of the spec directory it EXTENDS or INSTANCEs, transitively"""
+    import re
+    seen = {}
+    todo = [module]
+    while todo:
+        m = todo.pop()
+        path = os.path.join(SPEC, m + '.tla')
+        if m in seen or not os.path.exists(path):
+            continue
+        seen[m] = path
+        with open(path) as fh:
+            text = fh.read()
+        for line in re.findall(r'^\s*EXTENDS\s+(.*)$', text, flags=re.M):
+            todo += [x.strip() for x in line.split(',')]
+        todo += re.findall(r'INSTANCE\s+(\w+)', text)
+    return list(seen.values())
+
+
 def cached_export(module, cfg, **kw):
     """export() whose result is kept under /verif/out/cache, keyed by the content of the spec directory's .tla files and the cfg
     (several checks share the large program enumerations; the cache is rebuilt whenever a specification changes)"""
@@ -256,10 +275,17 @@ def cached_export(module, cfg, **kw):
     import gzip
     import hashlib
     h = hashlib.sha256()
-    for f in sorted(glob.glob(os.path.join(SPEC, '*.tla'))) + [os.path.join(SPEC, cfg)]:
+    for f in sorted(spec_closure(module)) + [os.path.join(SPEC, cfg)]:
         with open(f, 'rb') as fh:
             h.update(fh.read())
     d = outdir('cache')
+    # drop results of older versions of this specification
+    for old in glob.glob(os.path.join(d, '%s_%s_*.json.gz' % (module, cfg.replace('.cfg', '')))):
+        if h.hexdigest()[:16] not in old:
+            try:
+                os.remove(old)
+            except OSError:
+                pass
     path = os.path.join(d, '%s_%s_%s.json.gz' % (module, cfg.replace('.cfg', ''), h.hexdigest()[:16]))
     if os.path.exists(path):
         try:
